@@ -6,7 +6,7 @@ use rustc_middle::mir::{
     self, AggregateKind, BinOp, Body, CastKind, ConstValue, Operand, Place, ProjectionElem, Rvalue,
     StatementKind, TerminatorKind, UnOp,
 };
-use rustc_middle::ty::print::with_no_trimmed_paths;
+use rustc_middle::ty::print::{with_no_trimmed_paths, with_no_visible_paths};
 use rustc_middle::ty::{
     self, EarlyBinder, GenericArgsRef, Instance, InstanceKind, Ty, TyCtxt, TypingEnv,
 };
@@ -58,15 +58,15 @@ impl<'tcx> Ctx<'tcx> {
     }
 
     pub fn ty_str(&self, ty: Ty<'tcx>) -> String {
-        with_no_trimmed_paths!(format!("{}", ty))
+        with_no_visible_paths!(with_no_trimmed_paths!(format!("{}", ty)))
     }
 
     fn def_str(&self, did: DefId) -> String {
-        with_no_trimmed_paths!(self.tcx.def_path_str(did))
+        with_no_visible_paths!(with_no_trimmed_paths!(self.tcx.def_path_str(did)))
     }
 
     fn inst_key(&self, inst: Instance<'tcx>) -> String {
-        with_no_trimmed_paths!(format!("{}", inst))
+        with_no_visible_paths!(with_no_trimmed_paths!(format!("{}", inst)))
     }
 
     fn layout_size_align(&self, ty: Ty<'tcx>) -> Option<(u64, u64)> {
@@ -213,11 +213,14 @@ impl<'tcx> Ctx<'tcx> {
                         }
                         fs.push(fo);
                     }
-                    vs.push(
-                        J::obj()
-                            .with("name", J::s(v.name.to_string()))
-                            .with("fields", J::Arr(fs)),
-                    );
+                    let mut vo = J::obj()
+                        .with("name", J::s(v.name.to_string()))
+                        .with("fields", J::Arr(fs));
+                    if adt.is_enum() {
+                        let d = adt.discriminant_for_variant(tcx, vi);
+                        vo.set("discr", J::UInt(d.val));
+                    }
+                    vs.push(vo);
                 }
                 o.set("variants", J::Arr(vs));
                 let freeze = ty.is_freeze(tcx, self.env);
@@ -847,7 +850,7 @@ impl<'tcx> Ctx<'tcx> {
         };
         // core::arch leaves are modelled, not walked.
         let path = self.def_str(did);
-        let is_arch_leaf = path.starts_with("core::core_arch") || path.starts_with("std_detect");
+        let is_arch_leaf = path.starts_with("core::core_arch") || path.starts_with("std_detect") || path.starts_with("std::arch::") || path.starts_with("core::arch::");
         if has_mir && !is_arch_leaf && self.instances.len() < self.max_instances {
             let body = tcx.instance_mir(inst.def);
             let b = self.body_json(inst, body);
@@ -900,7 +903,7 @@ impl<'tcx> Ctx<'tcx> {
             let mut seen_tr: HashSet<String> = HashSet::new();
             while let Some(tr) = stack.pop() {
                 let tr = tcx.normalize_erasing_regions(self.env, ty::Unnormalized::new(tr));
-                let trs = with_no_trimmed_paths!(format!("{}", tr));
+                let trs = with_no_visible_paths!(with_no_trimmed_paths!(format!("{}", tr)));
                 if !seen_tr.insert(trs.clone()) {
                     continue;
                 }
@@ -1010,7 +1013,7 @@ pub fn run<'tcx>(tcx: TyCtxt<'tcx>, out_dir: &str) {
                     unsafe_impls.push(
                         J::obj()
                             .with("trait", J::s(trp))
-                            .with("self_ty", J::s(with_no_trimmed_paths!(format!("{}", tr.self_ty()))))
+                            .with("self_ty", J::s(with_no_visible_paths!(with_no_trimmed_paths!(format!("{}", tr.self_ty())))))
                             .with("unsafe", J::Bool(is_unsafe))
                             .with("span", span_json(tcx, tcx.def_span(did))),
                     );
